@@ -20,6 +20,7 @@ TECHNIQUE = "runtime monitoring: generated pipelines with unique item ids; every
 def gen(rnd):
     """A random pipeline shape: list of stages; every stage = dict(kind, ...)."""
     stages, live, nf = [], ["id", "a"], 0
+    width = {"id": 8, "a": 8}  # current width of every live field (a stage may re-generate a field with another width)
     for k in range(rnd.randint(1, 5)):
         r = rnd.random()
         fifo = rnd.choice([None, None, 1, 2, 4])
@@ -31,35 +32,42 @@ def gen(rnd):
                 nf += 1
             else:
                 out = rnd.choice(cons)  # overwrite a live field that this stage itself consumes (otherwise its producer would be unused)
-            stages.append({"kind": "func", "cons": cons, "out": out, "k": k, "fifo": fifo})
+            ow = rnd.choice([4, 8, 8, 12, 16])
+            stages.append({"kind": "func", "cons": cons, "cw": [width[c] for c in cons], "out": out, "ow": ow, "k": k, "fifo": fifo,
+                           "inferred": rnd.random() < 0.5})
+            width[out] = ow
             if out not in live:
                 live.append(out)
         elif r < 0.78:
             x = rnd.choice(others)
             out = f"f{nf}"
             nf += 1
-            stages.append({"kind": "call", "x": x, "out": out, "k": k, "fifo": fifo})
+            ow = rnd.choice([4, 8, 8, 16])
+            stages.append({"kind": "call", "x": x, "xw": width[x], "out": out, "ow": ow, "k": k, "fifo": fifo})
+            width[out] = ow
             live.append(out)
         else:
             out = f"f{nf}"
             nf += 1
-            stages.append({"kind": "ext", "out": out, "k": k, "fifo": fifo, "nodep": rnd.random() < 0.6})
+            ow = rnd.choice([4, 8, 8, 16])
+            stages.append({"kind": "ext", "out": out, "ow": ow, "k": k, "fifo": fifo, "nodep": rnd.random() < 0.6})
+            width[out] = ow
             live.append(out)
-    return stages, live
+    return stages, [(f, width[f]) for f in live]
 
 
 class Pipe(Elaboratable):
     def __init__(self, stages, live):
         self.stages, self.live = stages, live
         self.src = Method(i=[("id", 8), ("a", 8)])
-        self.snk = Method(o=[(f, 8) for f in live])
+        self.snk = Method(o=list(live))
         self.clear = Method()
         self.calls, self.exts = {}, {}
         for st in stages:
             if st["kind"] == "call":
-                self.calls[st["k"]] = Method(i=[("id", 8), (st["x"], 8)], o=[(st["out"], 8)])
+                self.calls[st["k"]] = Method(i=[("id", 8), (st["x"], st["xw"])], o=[(st["out"], st["ow"])])
             if st["kind"] == "ext":
-                self.exts[st["k"]] = Method(i=[(st["out"], 8)])
+                self.exts[st["k"]] = Method(i=[(st["out"], st["ow"])])
 
     def elaborate(self, platform):
         m = TModule()
@@ -67,11 +75,20 @@ class Pipe(Elaboratable):
         pb.add_external(self.src)
         for st in self.stages:
             if st["kind"] == "func":
-                def mk(cons=st["cons"], out=st["out"], k=st["k"]):
+                def mk(cons=st["cons"], out=st["out"], k=st["k"], ow=st["ow"], inferred=st["inferred"]):
+                    if inferred:
+                        # named parameters: the builder infers the input layout from the live signal shapes
+                        ns = {"C": C, "out": out, "k": k, "ow": ow}
+                        exec(f"def f({', '.join(cons)}):\n    return {{out: (sum([{', '.join(cons)}], start=C(k + 1, 16)))[:ow]}}", ns)
+                        return ns["f"]
+
                     def f(**kw):
-                        return {out: sum((kw[c] for c in cons), start=C(k + 1, 8))[:8]}
+                        return {out: sum((kw[c] for c in cons), start=C(k + 1, 16))[:ow]}
                     return f
-                pb.stage(m, o=[(st["out"], 8)], i=[(c, 8) for c in st["cons"]])(mk())
+                if st["inferred"]:
+                    pb.stage(m, o=[(st["out"], st["ow"])])(mk())
+                else:
+                    pb.stage(m, o=[(st["out"], st["ow"])], i=[(c, w) for c, w in zip(st["cons"], st["cw"])])(mk())
             elif st["kind"] == "call":
                 pb.call_method(self.calls[st["k"]])
             else:
@@ -138,11 +155,11 @@ def run_pipeline(rec, rnd, cycles, idx, clear_p):
                     ctx.set(tb.adapter.en, drain or rnd.random() < pr[k])
                 for k, tb in ext_tb.items():
                     ctx.set(tb.adapter.en, drain or rnd.random() < pr[k])
-                    ctx.set(tb.adapter.data_in, {kind_of[k]["out"]: (extn[k] * 11 + 5) & 255})
+                    ctx.set(tb.adapter.data_in, {kind_of[k]["out"]: (extn[k] * 11 + 5) & ((1 << kind_of[k]["ow"]) - 1)})
                 for k, tb in mocks.items():  # argument-dependent return value of the called-method mocks (settled argument)
                     st = kind_of[k]
                     arg = getattr(ctx.get(tb.adapter.data_out), st["x"])
-                    ctx.set(tb.adapter.data_in, {st["out"]: (arg + 17) & 255})
+                    ctx.set(tb.adapter.data_in, {st["out"]: (arg + 17) & ((1 << st["ow"]) - 1)})
                 _, _, d_src, d_snk, o_snk, d_clr, *rest = await trig
                 i = 0
                 mdone, edone = {}, {}
@@ -177,12 +194,12 @@ def run_pipeline(rec, rnd, cycles, idx, clear_p):
                             vals = compute(stages, it, upto=s)
                             rec.check("stage_receives_computed_fields", vals is None or vals[st["x"]] == getattr(arg, st["x"]), case=case,
                                       detail=dict(det, stage=s, observed=int(getattr(arg, st["x"])), expected=None if vals is None else vals[st["x"]]))
-                            it[st["out"]] = (int(getattr(arg, st["x"])) + 17) & 255
+                            it[st["out"]] = (int(getattr(arg, st["x"])) + 17) & ((1 << st["ow"]) - 1)
                             pending[nxt(s)].append(it)
                             rec.count("stage_visits")
                     else:
                         if edone[s]:
-                            extq[s].append((extn[s] * 11 + 5) & 255)
+                            extq[s].append((extn[s] * 11 + 5) & ((1 << st["ow"]) - 1))
                             extn[s] += 1
                         # items pass an external stage as soon as a supplied value and an item are both available; the pairing is
                         # k-th value of the epoch with k-th item of the epoch, the timing is not observable here: resolved lazily
@@ -191,11 +208,11 @@ def run_pipeline(rec, rnd, cycles, idx, clear_p):
                     it = take_for(pending, order, kind_of, extq, "snk")
                     if not rec.check("sink_emits_only_entered_items", it is not None, case=case, detail=det):
                         return
-                    got = {f: int(getattr(o_snk, f)) for f in live}
+                    got = {f: int(getattr(o_snk, f)) for f, _ in live}
                     if not rec.check("items_leave_in_entry_order", got["id"] == it["id"], case=case, detail=dict(det, observed=got, expected_id=it["id"])):
                         return
                     vals = compute(stages, it, upto=None)
-                    bad = {f: (got[f], vals[f]) for f in live if vals.get(f) is not None and got[f] != vals[f]}
+                    bad = {f: (got[f], vals[f]) for f, _ in live if vals.get(f) is not None and got[f] != vals[f]}
                     rec.check("sink_fields_equal_composed_stage_functions", not bad, case=case, detail=dict(det, mismatches=bad, item=it))
                     tot["left"] += 1
                     rec.count("items")
@@ -222,7 +239,9 @@ def run_pipeline(rec, rnd, cycles, idx, clear_p):
         except Exception:
             if not rec.viol_total:
                 rec.check("simulates", False, case=case, detail=traceback.format_exc()[-1500:])
-    shape = "+".join(st["kind"] + ("F" if st["fifo"] else "") + ("N" if st.get("nodep") else "") for st in stages)
+    shape = "+".join(st["kind"] + ("F" if st["fifo"] else "") + ("N" if st.get("nodep") else "") + ("i" if st.get("inferred") else "") for st in stages)
+    if any(st["kind"] == "func" and st["out"] in ("a",) + tuple(x["out"] for x in stages if x["k"] < st["k"]) for st in stages):
+        rec.count("pipelines_overwriting_a_field")
     rec.nontrivial(f"{shape}|clear{int(clear_p > 0)}")
     rec.count("pipelines")
     if any(st["fifo"] for st in stages):
@@ -267,7 +286,7 @@ def compute(stages, it, upto):
             if any(vals.get(c) is None for c in st["cons"]):
                 vals[st["out"]] = None
             else:
-                vals[st["out"]] = (sum(vals[c] for c in st["cons"]) + st["k"] + 1) & 255
+                vals[st["out"]] = (sum(vals[c] for c in st["cons"]) + st["k"] + 1) & ((1 << st["ow"]) - 1)
         else:
             vals[st["out"]] = it.get(st["out"])
     return vals
